@@ -422,6 +422,30 @@ def _group_chunk(states):
             reason = nf_reason(drive_marker.shape_of(r))
             if reason:
                 fails.append(("C15", f"C15:{op}:normal_form:{reason}", f"{x} {op} {y} -> {ctx['result']!r}", ctx))
+        # C07: the result renders to text that re-parses to the same meaning
+        try:
+            text = str(r)
+            if not (r.is_any() or r.is_empty()):
+                if "<empty>" in text:
+                    fails.append(("C07", f"C07:group-b1:{site}:empty-token-inside", f"{x} {op} {y} renders as {text!r}", ctx))
+                from dep_logic.markers import parse_marker
+                back = parse_marker(text)
+                tb = [bool(back.evaluate({"sys_platform": c})) for c in cands]
+                if tb != got:
+                    fails.append(("C07", f"C07:group-b1:{site}:reparse-table", f"{x} {op} {y} -> {text!r}, which re-parses to {str(back)!r}: differs on {[c for c, g, w in zip(cands, tb, got) if g != w][:4]}", ctx))
+        except Exception as e:  # noqa: BLE001
+            fails.append(("C07", f"C07:group-b1:{site}:raises-{type(e).__name__}", f"{x} {op} {y}: {e!r}", ctx))
+        # C14: oracle-free laws on this pair (both sides must evaluate alike): commutativity of the operator at hand and
+        # the absorption law that uses it
+        try:
+            r2 = (y & x) if op == "and" else (y | x)
+            if [bool(r2.evaluate({"sys_platform": c})) for c in cands] != got:
+                fails.append(("C14", f"C14:group-b1:{op}_comm({st['x']['k']},{st['y']['k']})", f"{x} {op} {y} and {y} {op} {x} evaluate differently", ctx))
+            ab = (x | r) if op == "and" else (x & r)          # x | (x & y) == x   /   x & (x | y) == x
+            if [bool(ab.evaluate({"sys_platform": c})) for c in cands] != tx:
+                fails.append(("C14", f"C14:group-b1:absorb({op};{st['x']['k']},{st['y']['k']})", f"x = {x}, y = {y}: x {'|' if op == 'and' else '&'} (x {op} y) = {drive_marker._key(ab)!r} does not evaluate like x", ctx))
+        except Exception as e:  # noqa: BLE001
+            fails.append(("C14", f"C14:group-b1:{site}:law-raises-{type(e).__name__}", f"{x} {op} {y}: {e!r}", ctx))
     return n, fails
 
 
@@ -430,7 +454,7 @@ def group_algebra_mc(rep: Report, pid: str, thorough: bool) -> None:
     tmp = tempfile.mkdtemp(prefix="verif_ga_")
     try:
         cfgp = os.path.join(tmp, "c.cfg")
-        open(cfgp, "w").write(f"SPECIFICATION ASpec\nCONSTANTS\n MaxLit = 2\n GroupLits <- {'LitsGroup4' if thorough else 'LitsGroup3'}\n"
+        open(cfgp, "w").write(f"SPECIFICATION ASpec\nCONSTANTS\n MaxLit = 2\n GroupLits <- LitsGroup4\n"
                               "INVARIANT TableExact\nINVARIANT GroupsNormal\nCHECK_DEADLOCK FALSE\n")
         d = os.path.join(tmp, "d")
         r = tla.run_tlc("GroupAlgebraMC.tla", cfgp, workers=16, args=["-dump", d])
@@ -784,7 +808,7 @@ def run(pid: str, tier: str, replay: str | None = None) -> int:
         atom_roundtrip(rep)
     if pid == "C02":
         glue_mc(rep, thorough)
-    if pid in ("C02", "C15"):
+    if pid in ("C02", "C15", "C07"):
         group_algebra_mc(rep, pid, thorough)
         # results fed back as operands, breadth-first to depth 3 (design level only)
         _nf_extra(rep, "ClosureSpec", "SelQuick" if thorough else "SelTiny", ["ClosureNormal"], dump=False, props=["ClosureSound"], constraint="ClosureBound")
